@@ -46,133 +46,86 @@ where
     a.bump.chunk.set(*a.chunk(cur));
 }
 
-/// Typed fast paths vs. the generic layout path on `RawBump` (the functions every public method funnels into).
-pub(crate) fn ob_raw_entry_points<A, S>(k: usize, hint: usize)
+/// One relational obligation: the entry point `which` against the generic layout path `RawBump::alloc`
+/// (the function every other entry point is compared with), from the same arbitrary state.
+pub(crate) fn ob_entry_pair<A, S>(k: usize, hint: usize, which: u8)
 where
     A: crate::BaseAllocator<S::GuaranteedAllocated> + Default,
     S: BumpAllocatorSettings,
 {
+    type T = [u16; 3]; // size 6, align 2: not a multiple of 4/8/16, alignment below most MIN_ALIGNs
     let mut a = Arena::<A, S>::build(k, hint);
     a.havoc();
     let c0 = a.cur;
     let s0 = a.snaps();
     unsafe { BUDGET = 0 };
-    // sized value: [u16; 3]  (size 6, align 2: size not a multiple of 4/8/16, alignment below most MIN_ALIGNs)
-    type T = [u16; 3];
-    let o1 = outcome(&a, a.bump.alloc::<AllocError>(Layout::new::<T>()).ok().map(|p| p.as_ptr() as usize));
-    restore(&a, c0, &s0);
-    let o2 = outcome(&a, a.bump.alloc_sized::<AllocError, T>().ok().map(|p| p.as_ptr() as usize));
-    restore(&a, c0, &s0);
-    let o3 = outcome(&a, crate::allocator_impl::allocate(&a.bump, Layout::new::<T>()).ok().map(|p| p.as_ptr() as *mut u8 as usize));
-    restore(&a, c0, &s0);
-    kani::assert(o1 == o2, "C17.alloc_sized_equals_layout_path");
-    kani::assert(o1 == o3, "C17.allocator_allocate_equals_layout_path");
-    // slice: u32 x n
     let n: usize = kani::any();
-    kani::assume(n <= 6);
-    let p1 = outcome(&a, a.bump.alloc::<AllocError>(Layout::array::<u32>(n).unwrap()).ok().map(|p| p.as_ptr() as usize));
-    restore(&a, c0, &s0);
-    let p2 = outcome(&a, a.bump.alloc_slice::<AllocError, u32>(n).ok().map(|p| p.as_ptr() as usize));
-    restore(&a, c0, &s0);
-    let proto = [0u32; 6];
-    let p3 = outcome(&a, a.bump.alloc_slice_for::<AllocError, u32>(&proto[..n]).ok().map(|p| p.as_ptr() as usize));
-    restore(&a, c0, &s0);
-    kani::assert(p1 == p2, "C17.alloc_slice_equals_layout_path");
-    kani::assert(p1 == p3, "C17.alloc_slice_for_equals_layout_path");
-    // prepare (no commit): typed prepare vs layout prepare give the same start
-    let q1 = a.bump.chunk.get().prepare_allocation(crate::layout::CustomLayout(Layout::new::<T>())).map(|p| p.as_ptr() as usize);
-    let q2 = a.bump.prepare_sized_allocation::<AllocError, T>().ok().map(|p| p.as_ptr() as usize);
-    if q1.is_some() {
-        kani::assert(q1 == q2, "C17.prepare_sized_equals_layout_path");
-    }
-    restore(&a, c0, &s0);
-    kani::cover!(o1.ok && o1.cur == c0, "sized-fast-path");
-    kani::cover!(o1.ok && o1.cur != c0 || k == 1, "sized-other-chunk");
-    kani::cover!(!o1.ok, "sized-fails");
-    kani::cover!(p1.ok && n > 0, "slice-ok");
-}
-
-/// Public entry points: BumpScope vs &BumpScope vs &mut vs WithoutDealloc / WithoutShrink vs `dyn BumpAllocatorCore`,
-/// typed `try_alloc*` methods vs the allocator interface, panicking twin vs `try_` twin.
-pub(crate) fn ob_public_entry_points<A, S>(k: usize, hint: usize)
-where
-    A: crate::BaseAllocator<S::GuaranteedAllocated> + Default,
-    S: BumpAllocatorSettings,
-{
-    let mut a = Arena::<A, S>::build(k, hint);
-    a.havoc();
-    let c0 = a.cur;
-    let s0 = a.snaps();
-    unsafe { BUDGET = 0 };
-    let layout = any_layout(24, 4);
-    let scope: &BumpScope<'_, A, S> = unsafe { transmute_ref(&a.bump) };
-    let base = outcome(&a, crate::allocator_impl::allocate(&a.bump, layout).ok().map(|p| p.as_ptr() as *mut u8 as usize));
-    restore(&a, c0, &s0);
-    let v1 = outcome(&a, Allocator::allocate(scope, layout).ok().map(|p| p.as_ptr() as *mut u8 as usize));
-    restore(&a, c0, &s0);
-    let v2 = outcome(&a, Allocator::allocate(&scope, layout).ok().map(|p| p.as_ptr() as *mut u8 as usize));
-    restore(&a, c0, &s0);
-    let v3 = outcome(&a, WithoutDealloc(scope).allocate(layout).ok().map(|p| p.as_ptr() as *mut u8 as usize));
-    restore(&a, c0, &s0);
-    let v4 = outcome(&a, WithoutShrink(WithoutDealloc(scope)).allocate(layout).ok().map(|p| p.as_ptr() as *mut u8 as usize));
-    restore(&a, c0, &s0);
-    let d: &dyn BumpAllocatorCore = scope;
-    let v5 = outcome(&a, d.allocate(layout).ok().map(|p| p.as_ptr() as *mut u8 as usize));
-    restore(&a, c0, &s0);
-    let v6 = outcome(&a, scope.try_allocate_layout(layout).ok().map(|p| p.as_ptr() as usize));
-    restore(&a, c0, &s0);
-    let v7 = outcome(&a, d.try_allocate_layout(layout).ok().map(|p| p.as_ptr() as usize));
-    restore(&a, c0, &s0);
-    kani::assert(base == v1, "C17.scope_allocate");
-    kani::assert(base == v2, "C17.ref_scope_allocate");
-    kani::assert(base == v3, "C17.without_dealloc_allocate");
-    kani::assert(base == v4, "C17.nested_wrappers_allocate");
-    kani::assert(base == v5, "C17.dyn_core_allocate");
-    kani::assert(base == v6, "C17.typed_try_allocate_layout");
-    kani::assert(base == v7, "C17.dyn_typed_try_allocate_layout");
-    // typed value methods: try_alloc(v) stores v at the address the layout path yields
+    kani::assume(n <= 5);
+    let any_l = any_layout(24, 4);
     let val: u32 = kani::any();
-    let lb = outcome(&a, a.bump.alloc::<AllocError>(Layout::new::<u32>()).ok().map(|p| p.as_ptr() as usize));
-    restore(&a, c0, &s0);
-    let tb = scope.try_alloc(val);
-    let t1 = match tb {
-        Ok(b) => {
-            let p = crate::BumpBox::into_raw(b);
-            kani::assert(unsafe { *p.as_ptr() } == val, "C17.try_alloc.value_stored");
-            outcome(&a, Some(p.as_ptr() as usize))
-        }
-        Err(_) => outcome(&a, None),
-    };
-    restore(&a, c0, &s0);
-    kani::assert(lb == t1, "C17.try_alloc_equals_layout_path");
-    // panicking twin when memory is available
-    if lb.ok {
-        let b = scope.alloc(val);
-        let p = crate::BumpBox::into_raw(b);
-        kani::assert(unsafe { *p.as_ptr() } == val, "C17.alloc.value_stored");
-        let t2 = outcome(&a, Some(p.as_ptr() as usize));
-        restore(&a, c0, &s0);
-        kani::assert(lb == t2, "C17.alloc_equals_try_alloc");
-    }
-    // slices by copy
     let src = [kani::any::<u16>(), kani::any::<u16>(), kani::any::<u16>()];
-    let ls = outcome(&a, a.bump.alloc::<AllocError>(Layout::array::<u16>(3).unwrap()).ok().map(|p| p.as_ptr() as usize));
-    restore(&a, c0, &s0);
-    let ts = scope.try_alloc_slice_copy(&src);
-    let t3 = match ts {
-        Ok(b) => {
-            let p = crate::BumpBox::into_raw(b);
-            let q = p.as_ptr() as *mut u16;
-            kani::assert(p.len() == 3 && unsafe { *q == src[0] && *q.add(1) == src[1] && *q.add(2) == src[2] }, "C17.try_alloc_slice_copy.contents");
-            outcome(&a, Some(q as usize))
-        }
-        Err(_) => outcome(&a, None),
+    // the layout this entry point is expected to request
+    let layout = match which {
+        0 | 1 | 2 => Layout::new::<T>(),
+        3 | 4 => Layout::array::<u32>(n).unwrap(),
+        12 | 13 => Layout::new::<u32>(),
+        14 => Layout::array::<u16>(3).unwrap(),
+        _ => any_l,
     };
+    let base = outcome(&a, a.bump.alloc::<AllocError>(layout).ok().map(|p| p.as_ptr() as usize));
     restore(&a, c0, &s0);
-    kani::assert(ls == t3, "C17.try_alloc_slice_copy_equals_layout_path");
-    kani::cover!(base.ok, "allocate-ok");
-    kani::cover!(!base.ok, "allocate-fails");
-    kani::cover!(lb.ok, "value-ok");
+    let scope: &BumpScope<'_, A, S> = unsafe { transmute_ref(&a.bump) };
+    let d: &dyn BumpAllocatorCore = scope;
+    let proto = [0u32; 5];
+    let other = match which {
+        0 => a.bump.alloc_sized::<AllocError, T>().ok().map(|p| p.as_ptr() as usize),
+        1 => crate::allocator_impl::allocate(&a.bump, layout).ok().map(|p| p.as_ptr() as *mut u8 as usize),
+        2 => scope.try_allocate_sized::<T>().ok().map(|p| p.as_ptr() as usize),
+        3 => a.bump.alloc_slice::<AllocError, u32>(n).ok().map(|p| p.as_ptr() as usize),
+        4 => a.bump.alloc_slice_for::<AllocError, u32>(&proto[..n]).ok().map(|p| p.as_ptr() as usize),
+        5 => Allocator::allocate(scope, layout).ok().map(|p| p.as_ptr() as *mut u8 as usize),
+        6 => Allocator::allocate(&scope, layout).ok().map(|p| p.as_ptr() as *mut u8 as usize),
+        7 => WithoutDealloc(scope).allocate(layout).ok().map(|p| p.as_ptr() as *mut u8 as usize),
+        8 => WithoutShrink(WithoutDealloc(scope)).allocate(layout).ok().map(|p| p.as_ptr() as *mut u8 as usize),
+        9 => d.allocate(layout).ok().map(|p| p.as_ptr() as *mut u8 as usize),
+        10 => scope.try_allocate_layout(layout).ok().map(|p| p.as_ptr() as usize),
+        11 => d.try_allocate_layout(layout).ok().map(|p| p.as_ptr() as usize),
+        12 => match scope.try_alloc(val) {
+            Ok(b) => {
+                let p = crate::BumpBox::into_raw(b);
+                kani::assert(unsafe { *p.as_ptr() } == val, "C17.try_alloc.value_stored");
+                Some(p.as_ptr() as usize)
+            }
+            Err(_) => None,
+        },
+        13 => {
+            // the panicking twin, when memory is available
+            if base.ok {
+                let p = crate::BumpBox::into_raw(scope.alloc(val));
+                kani::assert(unsafe { *p.as_ptr() } == val, "C17.alloc.value_stored");
+                Some(p.as_ptr() as usize)
+            } else {
+                None
+            }
+        }
+        _ => match scope.try_alloc_slice_copy(&src) {
+            Ok(b) => {
+                let p = crate::BumpBox::into_raw(b);
+                let q = p.as_ptr() as *mut u16;
+                kani::assert(p.len() == 3 && unsafe { *q == src[0] && *q.add(1) == src[1] && *q.add(2) == src[2] }, "C17.try_alloc_slice_copy.contents");
+                Some(q as usize)
+            }
+            Err(_) => None,
+        },
+    };
+    let o = outcome(&a, other);
+    if which == 13 && !base.ok {
+        restore(&a, c0, &s0);
+    }
+    kani::assert(base == o, "C17.entry_point_equals_layout_path");
+    kani::assert(a.wf(), "C10.entry_point.wf");
+    kani::cover!(base.ok, "ok");
+    kani::cover!(!base.ok, "does-not-fit");
 }
 
 /// C15: prepare + fill + commit of a slice, forward and reverse, through the typed trait methods.
@@ -195,6 +148,7 @@ where
     let want: usize = kani::any();
     kani::assume(want >= 1 && want <= 3);
     let vals = [kani::any::<T>(), kani::any::<T>(), kani::any::<T>()];
+    let (mut cov_full, mut cov_partial, mut cov_fail) = (false, false, false);
     if !rev {
         let r = scope.try_prepare_slice_allocation::<T>(want);
         if a.cur_index() == ci {
@@ -238,10 +192,10 @@ where
                 kani::assert(pos0 - pos1 < len * SZ + pad_bound + 2, "C15.commit.advance_is_size_plus_padding");
             }
             kani::assert(a.wf(), "C10.commit.wf");
-            kani::cover!(len == want, "full");
-            kani::cover!(len < want, "partial");
+            cov_full = len == want;
+            cov_partial = len < want;
         }
-        kani::cover!(r.is_err(), "prepare-fails");
+        cov_fail = r.is_err();
     } else {
         let r = scope.try_prepare_slice_allocation_rev::<T>(want);
         if a.cur_index() == ci {
@@ -281,11 +235,14 @@ where
                 kani::assert(is_down(oa as u128, S::MIN_ALIGN as u128, pos1 as u128), "C15.commit_rev.position_at_block_start");
             }
             kani::assert(a.wf(), "C10.commit_rev.wf");
-            kani::cover!(len == want, "full");
-            kani::cover!(len < want, "partial");
+            cov_full = len == want;
+            cov_partial = len < want;
         }
-        kani::cover!(r.is_err(), "prepare-fails");
+        cov_fail = r.is_err();
     }
+    kani::cover!(cov_full, "full");
+    kani::cover!(cov_partial, "partial");
+    kani::cover!(cov_fail, "prepare-fails");
 }
 
 type SUp1 = St<1, true, true, true, true>;
@@ -295,12 +252,24 @@ type SDn8 = St<8, false, true, true, true>;
 type SUp4 = St<4, true, true, true, true>;
 type SDn16 = St<16, false, true, true, true>;
 
-inst!(raw_entry_points_up1, unwind 4, ob_raw_entry_points, LogAlloc, SUp1, 2, 64);
-inst!(raw_entry_points_dn8, unwind 4, ob_raw_entry_points, LogAlloc, SDn8, 2, 64);
-inst!(raw_entry_points_up4, unwind 4, ob_raw_entry_points, LogAlloc<u64>, SUp4, 2, 64);
-inst!(raw_entry_points_dn16, unwind 4, ob_raw_entry_points, LogAlloc, SDn16, 2, 64);
-inst!(public_entry_points_up1, unwind 4, ob_public_entry_points, LogAlloc, SUp1, 2, 64);
-inst!(public_entry_points_dn8, unwind 4, ob_public_entry_points, LogAlloc, SDn8, 2, 64);
+inst!(ep_alloc_sized, unwind 3, ob_entry_pair, LogAlloc, SUp1, 1, 128, 0);
+inst!(ep_allocator_impl_allocate, unwind 3, ob_entry_pair, LogAlloc, SDn8, 1, 128, 1);
+inst!(ep_try_allocate_sized, unwind 3, ob_entry_pair, LogAlloc, SUp1, 1, 128, 2);
+inst!(ep_alloc_slice, unwind 3, ob_entry_pair, LogAlloc, SDn8, 1, 128, 3);
+inst!(ep_alloc_slice_for, unwind 3, ob_entry_pair, LogAlloc, SUp1, 1, 128, 4);
+inst!(ep_scope_allocate, unwind 3, ob_entry_pair, LogAlloc, SDn8, 1, 128, 5);
+inst!(ep_ref_scope_allocate, unwind 3, ob_entry_pair, LogAlloc, SUp1, 1, 128, 6);
+inst!(ep_without_dealloc, unwind 3, ob_entry_pair, LogAlloc, SDn8, 1, 128, 7);
+inst!(ep_nested_wrappers, unwind 3, ob_entry_pair, LogAlloc, SUp1, 1, 128, 8);
+inst!(ep_dyn_core, unwind 3, ob_entry_pair, LogAlloc, SDn8, 1, 128, 9);
+inst!(ep_try_allocate_layout, unwind 3, ob_entry_pair, LogAlloc, SUp1, 1, 128, 10);
+inst!(ep_dyn_try_allocate_layout, unwind 3, ob_entry_pair, LogAlloc, SDn8, 1, 128, 11);
+inst!(ep_try_alloc_value, unwind 3, ob_entry_pair, LogAlloc, SUp1, 1, 128, 12);
+inst!(ep_alloc_value_panicking_twin, unwind 3, ob_entry_pair, LogAlloc, SDn8, 1, 128, 13);
+inst!(ep_try_alloc_slice_copy, unwind 3, ob_entry_pair, LogAlloc, SUp1, 1, 128, 14);
+inst!(ep_alloc_sized_dn16, unwind 3, ob_entry_pair, LogAlloc, SDn16, 1, 128, 0);
+inst!(ep_alloc_slice_up4, unwind 3, ob_entry_pair, LogAlloc<u64>, SUp4, 1, 128, 3);
+inst!(ep_alloc_sized_up8_k2, unwind 4, ob_entry_pair, LogAlloc, SUp8, 2, 64, 0);
 
 inst!(prepared_slice_up1, unwind 5, ob_prepared_slice, LogAlloc, SUp1, 1, 64, false);
 inst!(prepared_slice_dn1, unwind 5, ob_prepared_slice, LogAlloc, SDn1, 1, 64, false);
